@@ -308,7 +308,8 @@ def _cliques_to_fill(G, max_order):
 
     """
     if max_order is None:
-        cliques = list(nx.find_cliques(G))  # max cliques
+        # max cliques; an isolated node is a maximal clique of size 1: don't add singletons
+        cliques = [clique for clique in nx.find_cliques(G) if len(clique) > 1]
     else:  # avoid adding many unnecessary redundant cliques
         cliques = []
         for clique in nx.enumerate_all_cliques(G):  # sorted by size
